@@ -139,7 +139,7 @@ func TestVerifGrpcMessageCodec(t *testing.T) {
 				"dec": vlib.Bytes(decodeGrpcMessage(e)), "rawdec": vlib.Bytes(decodeGrpcMessage(m))})
 		})
 	}
-	alphabet := []byte{'a', '%', '4', '1', ' ', '~', 0x7f, 0x1f, 0xc3, 0xa9, 0xff, 0x80, 'F', 'f', 'g', 0xe2, 0x82, 0xac, 0xf0, 0x9f, 0x98, 0x80, 0xed, 0xa0, 0x00}
+	alphabet := []byte{'a', '%', '4', '1', ' ', '~', 0x7f, 0x1f, 0xc3, 0xa9, 0xff, 0x80, 'F', 'f', 'g', 0xe2, 0x82, 0xac, 0xf0, 0x9f, 0x98, 0x80, 0xed, 0xa0, 0x00, 0xef, 0xbf, 0xbd}
 	// every string of length <= 2 over the alphabet, then random ones
 	for _, a := range alphabet {
 		emit(string([]byte{a}))
@@ -148,7 +148,8 @@ func TestVerifGrpcMessageCodec(t *testing.T) {
 		}
 	}
 	emit("")
-	for _, s := range []string{"%", "%4", "%ZZ", "%41", "%4g", "a%", "a%4", "%%41", "%e4%bd%a0", "你好", "€", "\xe2\x82", "\xf0\x9f\x98", "100% sure", "%25", "%C3%A9", "tab\there", "nl\n"} {
+	for _, s := range []string{"%", "%4", "%ZZ", "%41", "%4g", "a%", "a%4", "%%41", "%e4%bd%a0", "你好", "€", "\xe2\x82", "\xf0\x9f\x98", "100% sure", "%25", "%C3%A9", "tab\there", "nl\n",
+		"\ufffd", "a\ufffdb", "\ufffd\ufffd", "x\ufffd%41", "\ufffd\xff", "\xef\xbf", "\xef\xbf\xbd\xbd", "\u00e9\ufffd\u20ac", "\U0001F600\ufffd", "\ufffe", "\uffff", "\ud7ff", "\ue000", "\U0010FFFF", "\xf4\x90\x80\x80", "\xc0\xaf", "\xe0\x80\xaf"} {
 		emit(s)
 	}
 	for i := 0; i < n; i++ {
